@@ -965,36 +965,36 @@ def render_workbook(rng, d):
 
 _WF = "version: '2.0'\nwf:\n  tasks:\n    t1:\n      action: std.noop\n"
 CORPUS = [
-    # D1 version probe on scalar documents
-    ('wb', '5', 'crash'), ('wb', '3.5', 'crash'), ('wb', 'true', 'crash'), ('wb', 'version', 'crash'),
-    ('wb', '[version]', 'crash'), ('wb', 'abc', 'dsl'),
-    # D9 a numeric version makes get_workbook_spec return None
-    ('wb', "version: 2.0\nname: wb\nworkflows:\n  wf1:\n    tasks:\n      t:\n        action: std.noop\n", 'none'),
-    ('wb', "version: '2'\nname: wb\n", 'none'), ('wb', "version: 3\nname: wb\n", 'dsl'), ('wb', '[1, 2]', 'dsl'), ('wb', '', 'dsl'), ('wf', '5', 'dsl'), ('act', '5', 'dsl'),
+    # regression (fixed by 31aaf4b7, all were internal errors): version probe on scalar documents
+    ('wb', '5', 'dsl'), ('wb', '3.5', 'dsl'), ('wb', 'true', 'dsl'), ('wb', 'version', 'dsl'),
+    ('wb', '[version]', 'dsl'), ('wb', 'abc', 'dsl'),
+    # regression: a numeric version used to make get_workbook_spec return None
+    ('wb', "version: 2.0\nname: wb\nworkflows:\n  wf1:\n    tasks:\n      t:\n        action: std.noop\n", 'accept'),
+    ('wb', "version: '2'\nname: wb\n", 'dsl'), ('wb', "version: 3\nname: wb\n", 'dsl'), ('wb', '[1, 2]', 'dsl'), ('wb', '', 'dsl'), ('wf', '5', 'dsl'), ('act', '5', 'dsl'),
     # D3 unhashable polymorphic key
-    ('wf', "version: '2.0'\nwf:\n  type: [direct]\n  tasks:\n    t1:\n      action: std.noop\n", 'crash'),
-    ('wb', "version: '2.0'\nname: wb\nworkflows:\n  wf:\n    type: {a: 1}\n    tasks:\n      t1:\n        action: std.noop\n", 'crash'),
+    ('wf', "version: '2.0'\nwf:\n  type: [direct]\n  tasks:\n    t1:\n      action: std.noop\n", 'dsl'),
+    ('wb', "version: '2.0'\nname: wb\nworkflows:\n  wf:\n    type: {a: 1}\n    tasks:\n      t1:\n        action: std.noop\n", 'dsl'),
     ('wf', "version: '2.0'\nwf:\n  type: 1\n  tasks:\n    t1:\n      action: std.noop\n", 'dsl'),
     # D4 a non-dict task under a name the schema pattern does not cover
-    ('wf', "version: '2.0'\nwf:\n  tasks:\n    my-task: abc\n", 'crash'),
-    ('wf', "version: '2.0'\nwf:\n  tasks:\n    t1:\n      action: std.noop\n    a b: [1]\n", 'crash'),
+    ('wf', "version: '2.0'\nwf:\n  tasks:\n    my-task: abc\n", 'dsl'),
+    ('wf', "version: '2.0'\nwf:\n  tasks:\n    t1:\n      action: std.noop\n    a b: [1]\n", 'dsl'),
     ('wf', "version: '2.0'\nwf:\n  tasks:\n    my-task:\n      action: std.noop\n", 'accept'),
     ('wf', "version: '2.0'\nwf:\n  tasks:\n    t1: abc\n", 'dsl'),
     # D5 inline parameters merged into a string `input`
-    ('wf', "version: '2.0'\nwf:\n  tasks:\n    t1:\n      action: std.echo output=1\n      input: <% $.params %>\n", 'crash'),
+    ('wf', "version: '2.0'\nwf:\n  tasks:\n    t1:\n      action: std.echo output=1\n      input: <% $.params %>\n", 'dsl'),
     ('wf', "version: '2.0'\nwf:\n  tasks:\n    t1:\n      action: std.echo\n      input: <% $.params %>\n", 'accept'),
     ('wf', "version: '2.0'\nwf:\n  tasks:\n    t1:\n      action: std.echo output=1\n      input:\n        a: 2\n", 'accept'),
     # D2 non-string keys (outside the model class)
-    ('wf', "version: '2.0'\nwf:\n  tasks:\n    t1:\n      action: std.noop\n      publish:\n        1: x\n", 'crash'),
-    ('wf', "version: '2.0'\nwf:\n  tasks:\n    yes:\n      action: std.noop\n", 'crash'),
-    ('wf', "version: '2.0'\nwf:\n  tasks:\n    null:\n      action: std.noop\n", 'crash'),
+    ('wf', "version: '2.0'\nwf:\n  tasks:\n    t1:\n      action: std.noop\n      publish:\n        1: x\n", 'dsl'),
+    ('wf', "version: '2.0'\nwf:\n  tasks:\n    yes:\n      action: std.noop\n", 'dsl'),
+    ('wf', "version: '2.0'\nwf:\n  tasks:\n    null:\n      action: std.noop\n", 'dsl'),
     # D6-D8 text level: deep nesting, huge integer, deep Jinja expression
-    ('wf', _WF + '  output:\n    a: ' + '[' * 3000 + ']' * 3000 + '\n', 'crash'),
-    ('wf', _WF + '  output:\n    a: ' + '9' * 5000 + '\n', 'crash'),
-    ('wf', _WF + '  output:\n    a: "{{ ' + '(' * 2000 + '1' + ')' * 2000 + ' }}"\n', 'crash'),
+    ('wf', _WF + '  output:\n    a: ' + '[' * 3000 + ']' * 3000 + '\n', 'dsl'),
+    ('wf', _WF + '  output:\n    a: ' + '9' * 5000 + '\n', 'dsl'),
+    ('wf', _WF + '  output:\n    a: "{{ ' + '(' * 2000 + '1' + ')' * 2000 + ' }}"\n', 'dsl'),
     ('wf', _WF + '  output:\n    a: <% ' + '(' * 2000 + '1' + ')' * 2000 + ' %>\n', 'accept'),
     # D10 deep nesting that the YAML loader survives
-    ('wf', _WF + 'deep: ' + '[' * 400 + ']' * 400 + '\n', 'crash'),
+    ('wf', _WF + 'deep: ' + '[' * 400 + ']' * 400 + '\n', 'dsl'),
     # hardened loader: anchors / aliases / tags are definition errors
     ('wf', _WF + '  output: &a\n    a: 1\n  vars: *a\n', 'dsl'),
     ('wf', _WF + '  output:\n    a: !!python/object/apply:os.system [x]\n', 'dsl'),
@@ -1003,8 +1003,8 @@ CORPUS = [
     ('wf', _WF + '---\n' + _WF, 'dsl'),
     ('wf', _WF + '  output:\n    a: 2001-12-14\n', 'dsl'),
     # stored form
-    ('wf', _WF + '      input:\n        ports:\n          80: http\n', 'accept'),
-    ('wf', "version: '2.0'\nwf:\n  tasks:\n    version:\n      action: std.noop\n    t2:\n      action: std.noop\n", 'accept'),
+    ('wf', _WF + '      input:\n        ports:\n          80: http\n', 'dsl'),
+    ('wf', "version: '2.0'\nwf:\n  tasks:\n    version:\n      action: std.noop\n    t2:\n      action: std.noop\n", 'dsl'),
     # retry one-line, advanced publishing, task-defaults
     ('wf', _WF + "      retry: count=3 delay=1\n      on-success:\n        next: [t2]\n        publish:\n          branch:\n            a: 1\n    t2:\n      join: all\n", 'accept'),
     ('wf', _WF + "      retry: delay=1\n", 'dsl'),
@@ -1024,7 +1024,8 @@ CORPUS = [
     ('wf', "version: '2.0'\nwf:\n  vars:\n    a: &a [x, x, x, x, x, x, x, x]\n    b: &b [*a, *a, *a, *a, *a, *a, *a, *a]\n    c: &c [*b, *b, *b, *b, *b, *b, *b, *b]\n"
            "    d: &d [*c, *c, *c, *c, *c, *c, *c, *c]\n    e: &e [*d, *d, *d, *d, *d, *d, *d, *d]\n    f: &f [*e, *e, *e, *e, *e, *e, *e, *e]\n"
            "    g: &g [*f, *f, *f, *f, *f, *f, *f, *f]\n  tasks:\n    t1:\n      action: std.noop\n", 'accept'),
-    # F3 slicing: a task named like a later workflow
+    # regression (fixed by 1e28c643): slicing - a task named like a later workflow, section name in a text, quoted member,
+    # `workflows :`; oracle O3 checks the cut of every member of these accepted workbooks
     ('wb', "version: '2.0'\nname: wb\nworkflows:\n  wf1:\n    tasks:\n      wf2:\n        action: std.noop\n  wf2:\n    tasks:\n      t:\n        action: std.echo output=1\n", 'accept'),
     ('wb', "version: '2.0'\nname: wb\ndescription: 'my workflows: are here'\nworkflows:\n  wf1:\n    tasks:\n      t:\n        action: std.noop\n", 'accept'),
     ('wb', "version: '2.0'\nname: wb\nworkflows:\n  'wf1':\n    tasks:\n      t:\n        action: std.noop\n", 'accept'),
